@@ -482,6 +482,25 @@ def rule_greedy(ctx: Ctx, which: str) -> None:
 
 # --------------------------------------------------------------------------- KAISA grid
 
+def _dict_builds(p, f, name: str) -> list[tuple[str, str, str, str]]:  # noqa: ANN001
+    """(key, value, iterable, loop target) of every way `name` is filled per element of an iterable:
+    `for t in it: name[k] = v` and `name = {k: v for t in it}` are the same construction."""
+    out = []
+    for n in p.nodes(f):
+        if isinstance(n, ast.Assign) and len(n.targets) == 1 and isinstance(n.targets[0], ast.Subscript) and norm(n.targets[0].value) == name:
+            loops = [lp for lp in flow.enclosing_loops(p, f, n) if isinstance(lp, ast.For)]
+            if loops and not flow.enclosing_guards(p, f, n):
+                lp = loops[-1] if loops[-1].lineno >= loops[0].lineno else loops[0]
+                out.append((norm(n.targets[0].slice), norm(n.value), norm(lp.iter), norm(lp.target)))
+        if isinstance(n, (ast.Assign, ast.AnnAssign)) and isinstance(n.value, ast.DictComp):
+            tg = n.targets[0] if isinstance(n, ast.Assign) else n.target
+            dc = n.value
+            if norm(tg) == name and len(dc.generators) == 1 and not dc.generators[0].ifs:
+                g = dc.generators[0]
+                out.append((norm(dc.key), norm(dc.value), norm(g.iter), norm(g.target)))
+    return out
+
+
 def rule_coh_grid(ctx: Ctx) -> None:
     p = ctx.prog
     ctx.rule('COH-GRID', "a layer's worker group is the column containing its inverse worker, the receiver group the row containing the local rank, "
@@ -526,8 +545,11 @@ def rule_coh_grid(ctx: Ctx) -> None:
     ctx.check(iw is not None and 'self._inv_assignments[layer]' in norm(iw), 'COH-GRID', init, 'the column is selected by an inverse worker of the same layer', 'inv_worker',
               f'inv_worker is {norm(iw) if iw is not None else None}', iw or init.node)
     # group handles created for every row and column under the ranks they are looked up by
-    okh = any(isinstance(n, ast.Assign) and norm(n.targets[0]) == 'ranks_to_communication_group[ranks]' and norm(n.value) in ('self.group_func(list(ranks))', 'self.group_func(sorted(ranks))') for n in nodes) \
-        and any(isinstance(n, ast.For) and norm(n.iter) in ('grad_worker_ranks | grad_receiver_ranks', 'grad_receiver_ranks | grad_worker_ranks') and norm(n.target) == 'ranks' for n in nodes)
+    okh = False
+    union = ('grad_worker_ranks | grad_receiver_ranks', 'grad_receiver_ranks | grad_worker_ranks')
+    for key, val, it, tgt in _dict_builds(p, init, 'ranks_to_communication_group'):
+        if it in union and key == tgt and val in (f'self.group_func(list({tgt}))', f'self.group_func(sorted({tgt}))'):
+            okh = True
     ctx.check(okh, 'COH-GRID', init, 'one handle per row and per column, keyed by its ranks', 'ranks_to_communication_group',
               'process-group handles are not created once for every gradient-worker and gradient-receiver rank set and stored under that rank set', init.node)
     # accessor methods
